@@ -4,6 +4,10 @@ import json, os
 HERE = os.path.dirname(os.path.dirname(os.path.abspath(__file__)))
 
 CHECKS = {
+ 'C09': dict(level='exploration', ref='3/C09',
+   technique='deterministic thread-schedule simulation (baton-passed real threads, pre-emption at every gin source line) + injected exceptions on every scope exit path, per-thread model stack as oracle',
+   text='Seeded search over nested scope-block programs (valid/invalid entries, normal/exceptional exits, re-entrant probe bodies, scoped references and get_configurable) run by 1-4 simulated threads under seeded schedules; each thread\'s view is compared with its own model stack at every observation. Evidence over the sampled histories x schedules, not proof.',
+   note='Pre-emption at source-line granularity inside gin; binding store quiescent while threads run; CPython 3.12 only.'),
  'C18': dict(level='exploration', ref='3/C18',
    technique='deterministic thread-schedule simulation (baton-passed real threads, pre-emption at every gin source line, seeded policies seq/rand/pct/target) with a sequential twin run as oracle',
    text='Seeded search over interleavings of 2-4 simulated threads that call configurables, read the operative config and first-use singletons; a clean batch is evidence over the sampled schedules, not proof. Right level: the property quantifies over schedules, which only a controlled scheduler can reach reproducibly.',
